@@ -39,6 +39,8 @@ BAD = {
     "ts-class-header-without-body": b"export class Session extends Base",
     # an import list left open at the end of the file (state that must not leak into the next file)
     "truncated-multiline-import": b"import os\nfrom collections import (\n    OrderedDict,\n    defaultdict,\n",
+    # an unterminated doc comment followed by a long run of blanks (regex backtracking)
+    "unterminated-jsdoc-then-whitespace": b"/**" + b" " * 4000 + b"\nconst x = 1;\n",
     "deep-blocks": "".join("    " * i + "if a%d:\n" % i for i in range(60)).encode() + b"    " * 60 + b"pass\n",
     "only-comments": b"# a\n# b\n// c\n",
     "lone-surrogate-escape": "s = '\\ud800'\n".encode(),
@@ -53,7 +55,7 @@ BAD = {
     "odd-rust-literals": b"fn f() -> u64 {\n    let a = 0o9;\n    let b = 1_u99;\n    let c = 0xg;\n    let d = 1e;\n    a + b + c + d as u64 + 99999999999999999999999999\n}\n",
 }
 EXTS = (".py", ".ts", ".js", ".rs", ".txt", "")
-HEAVY = ("long-operator-chain", "long-call-chain", "operator-chain-beyond-cpython-parser-limit")
+HEAVY = ("long-operator-chain", "long-call-chain", "operator-chain-beyond-cpython-parser-limit", "unterminated-jsdoc-then-whitespace")
 _P = {}
 _TIER = {"t": "quick"}
 
@@ -114,6 +116,8 @@ def h_bad_content(ctx):
     first = ctx.flag("offending_file_sorts_first") if not heavy else False
     f = d / "src" / (("aa_offending" if first else "zz_offending") + ext)
     f.write_bytes(BAD[kind])
+    import time
+    t_start = time.time()
     tap = _Tap()
     lg = logging.getLogger("src.orchestrator.core")
     was_disabled, old_level = logging.root.manager.disable, lg.level
@@ -148,7 +152,10 @@ def h_bad_content(ctx):
     ctx.note("content", kind)
     ctx.note("extension", ext)
     ctx.cover("ran")
+    elapsed = time.time() - t_start
     ctx.require("run-terminates-without-exception", err is None, content=kind, ext=ext, error=err)
+    # "never hangs": the largest inputs of the table take a few seconds; half a minute for one run means a blow-up
+    ctx.require("run-finishes-in-reasonable-time", elapsed < 30 or how == "cli" and elapsed < 120, content=kind, ext=ext, seconds=round(elapsed, 1))
     if code is not None:
         ctx.require("every-command-exits-0-or-1", all(c in (0, 1) for c in code.values()), codes=code, content=kind, ext=ext)
     ctx.require("no-rule-fails-internally", not tap.records, content=kind, ext=ext, logged=tap.records[:2])
